@@ -2,7 +2,7 @@
 from contracts import c14, enc
 
 LEVEL = "other"
-TRUSTED = ["Euler-type argument (balanced + connected => the spliced sub-walks are closed and no edge is left over) is NOT proved; it is decided by exhaustive bounded enumeration"]
+TRUSTED = ["Euler-type argument (balanced + connected => the spliced sub-walks are closed and no edge is left over) is NOT proved; it is decided by exhaustive bounded enumeration; conservation (no traversal invented) IS proved under that hypothesis"]
 ASSUMPTIONS = ["A3 round(x) within 1/2 of x"]
 EXPLANATION = ("Proved (PyVC, unbounded): the ENCODER AbstractWalkModelDiGraph._encode_walks adds exactly the rows of the walk formulation (one unit out of the source, conservation at inner nodes with integer multiplicities within the per-edge bound, one selected used in-edge per entered node, distances increasing along selected edges) for every assignment of the columns - the balanced-and-connected precondition of the reconstruction rests on these rows (plus a graph lemma that is not proved). Proved (PyVC, unbounded): the residual multigraph handed to the reconstruction contains, for every vertex, exactly round(sigma) copies of each out-neighbour (block structure, no counting axiom). "
                "Bounded (exhaustive, no solver): the real reconstruction functions on every balanced connected multiplicity vector up to the stated size and EVERY ordering of the adjacency lists: "
@@ -22,8 +22,8 @@ def bounded(tier, seed):
 
 MANIFEST = dict(
     category="other",
-    text='Contract-based proofs on the real source: the walk-formulation ENCODER (_encode_walks, all rows, for every assignment) and the residual-graph construction (3 nested loops, quantified block invariants) + exhaustive bounded enumeration of balanced connected multiplicity vectors x adjacency orders through the real reconstruction.',
+    text='Contract-based proofs on the real source: the walk-formulation ENCODER (_encode_walks, all rows, for every assignment), the residual-graph construction (3 nested loops, quantified block invariants), and CONSERVATION through the Hierholzer reconstruction (_build_closed_walk_from_vertex: pairs of the returned walk = edges removed, closed-or-stuck; _reconstruct_eulerian_walk: every consecutive pair of the result consumed one decided copy of its edge, under the hypothesis that every spliced sub-walk was closed) + exhaustive bounded enumeration of balanced connected multiplicity vectors x adjacency orders through the real reconstruction.',
     design_ref="DESIGN.md section 3 / C14",
-    note='Conservation through the Hierholzer splicing is bounded, not proved (stated stretch goal not reached).',
+    note='The Euler argument (balance + connectivity => every spliced sub-walk is closed and no edge is left over) is not proved: completeness of the traversal is decided by the exhaustive bounded enumeration.',
     technique='contract-based deductive verification of encoder and residual build (PyVC) + exhaustive bounded enumeration of the reconstruction',
     engine="pyvc+rc")
